@@ -469,6 +469,10 @@ func scenariosFor(tier string) []vrt.Scenario {
 	// each start an iteration before noticing) are not entered
 	add(b, cfg{mode: "file-users-ahead", maxDur: ms(2000), cancelAt: ms(150), body: "sleep30"})
 	add(b, cfg{mode: "file-users-ahead-long", maxDur: 3 * time.Hour, cancelAt: ms(150), body: "sleep30", conc: 2})
+	// the caller interrupts while a stage is being entered (at a stage boundary): the stage's
+	// pool is either not started or waited for - nothing of it starts after the run has returned
+	add(b, cfg{mode: "file", maxDur: ms(2000), cancelAt: ms(300), body: "sleep30"})
+	add(b, cfg{mode: "file-users-first", maxDur: ms(2000), cancelAt: ms(300), body: "sleep30", conc: 2})
 	// the triggering window is over before it begins
 	add(b, cfg{mode: "constant", maxDur: ms(10), cancelAt: never, body: "sleep30", conc: 2})
 	add(b, cfg{mode: "constant", maxDur: ms(5), cancelAt: never, body: "instant"})
